@@ -66,8 +66,26 @@ def variations():
     return out
 
 
-def country_presets():
+def variations_of(tag, base):
+    """single-option variations of another documented preset (families present in it only)"""
+    out = {}
+    for fam, vals in sorted(pools.FAMILIES.items()):
+        if fam not in base:
+            continue
+        for v in vals:
+            if base.get(fam) != v:
+                o = dict(base)
+                o[fam] = v
+                out[f"{tag}_{fam}={v}"] = o
+    return out
+
+
+def country_presets(extended=False):
     d = {n: {"yaml": n} for n in YAML_NAMES}
     d.update(fig1())
     d.update(variations())
+    if extended:
+        # single-option variations of the manuscript's resilient-food example and of the baseline-climate preset
+        d.update(variations_of("msv", fig1()["ms_example_all_resilient_foods"]))
+        d.update(variations_of("blv", dict(pools.BASELINE_OPTION)))
     return d
